@@ -20,6 +20,7 @@ EXPLANATION = (
     "parameter/result whose two types are both present and different. Engine K: from_string of the three option enums "
     "accepts exactly the member names case-insensitively and raises ValueError otherwise, for every ASCII string within "
     "the bound. Engine C: the CLI wiring forwards -tsp/-tsw unchanged."
+    " Parameters without type hint but with a literal default are included (the type the analyser infers from the default counts as the code's type), and return hints that are written but unresolvable (Any of kind special_form with an UnboundType; Any from_unimported_type without import name)."
 )
 ASSUMPTIONS = [
     "docstring parser -> stub returning the selected types/defaults (the griffe-based extraction of types from real "
